@@ -350,7 +350,7 @@ func (c *c10ctx) stmt(s ast.Stmt, ind string) []string {
 			return []string{"CPanic " + gq(m)}
 		}
 		if call, ok := c10isCall(x.X, "cf.xorKeyStream", 2); ok {
-			return []string{"CCall " + gq("xorKeyStream") + " " + c.sexp(call.Args[0]) + " " + c.sexp(call.Args[1])}
+			return []string{"CCall KxorKeyStream " + c.sexp(call.Args[0]) + " " + c.sexp(call.Args[1])}
 		}
 		if call, ok := c10isCall(x.X, "cf.c.Encrypt", 2); ok {
 			return []string{"CEncrypt " + c.sexp(call.Args[0]) + " " + c.sexp(call.Args[1])}
